@@ -118,6 +118,43 @@ def run_queue_case(case, watchdog_s=20.0):
   log = []
   info['queue'] = q
   state = {'produced': 0, 'consumers_ended': 0, 'producers_ended': 0}
+  # Timing scenarios (see timing_variants): threads that sleep, consumers that
+  # retry after a TimeoutError, and pass-through tracing of the queue's steps.
+  pnaps, cnaps = case.get('pnaps'), case.get('cnaps')
+  retry = case.get('retry') or 0
+
+  def me():
+    st = core.ACTIVE.me()
+    return st.name if st is not None else '?'
+
+  def nap():
+    # time.sleep() under the scheduler: a timed block that never becomes enabled.
+    # Like every timed wait it expires only when no thread is enabled, and which of
+    # several timed waits expires first is the scheduler's (seeded) choice, i.e. the
+    # sleep may be shorter or longer than the queue's timeout.
+    log.append(('nap', me()))
+    core.ACTIVE.block(lambda: False, f'nap({me()})', timed=True)
+
+  if case.get('trace_queue'):
+    orig_put, orig_put_nowait, orig_get_nowait = q.put, q.put_nowait, q.get_nowait
+
+    def traced_put(value):
+      try:
+        return orig_put(value)
+      except TimeoutError:
+        log.append(('put_timeout', me(), value))
+        raise
+
+    def traced_put_nowait(value):
+      orig_put_nowait(value)
+      log.append(('enq', me(), value))
+
+    def traced_get_nowait():
+      value = orig_get_nowait()
+      log.append(('deq', me(), value))
+      return value
+
+    q.put, q.put_nowait, q.get_nowait = traced_put, traced_put_nowait, traced_get_nowait
 
   def gen(p):
     n = lens[p]
@@ -125,6 +162,8 @@ def run_queue_case(case, watchdog_s=20.0):
       if fault and fault['p'] == p and fault['at'] == i:
         log.append(('fail', p, i))
         raise fault_exception(fault.get('exc'), f'p{p}@{i}')
+      if pnaps and i in pnaps[p]:
+        nap()
       log.append(('produce', p, i))
       state['produced'] += 1
       core.ACTIVE.yield_point('user-gen')
@@ -132,6 +171,8 @@ def run_queue_case(case, watchdog_s=20.0):
     if fault and fault['p'] == p and fault['at'] == n:
       log.append(('fail', p, n))
       raise fault_exception(fault.get('exc'), f'p{p}@{n}')
+    if pnaps and n in pnaps[p]:
+      nap()
     return f'r{p}'
 
   def source(p):
@@ -168,16 +209,59 @@ def run_queue_case(case, watchdog_s=20.0):
     it = None
     max_ops = case.get('consumer_max_ops')
     ops = 0
+    retries = 0
+
+    def dequeue(m):
+      # One dequeue operation of a retrying consumer (timing scenarios).
+      nonlocal it
+      if m == 'get':
+        return [q.get()]
+      if m.startswith('batch_nb:'):
+        return q.get_batch(int(m.split(':')[1]), block=False)
+      if m.startswith('batch_b:'):
+        return q.get_batch(int(m.split(':')[1]), block=True)
+      if m == 'batch0':
+        return q.get_batch()
+      if m == 'iter':
+        if it is None:
+          it = q.dequeue_as_iterator()
+        return [next(it)]
+      raise ValueError(m)
+
     try:
+      if cnaps and cnaps[c] == 'late':
+        # An absent consumer: it only turns up once every producer has returned.
+        core.ACTIVE.block(lambda: state['producers_ended'] >= P, 'consumer.late')
       while True:
         if max_ops is not None and ops >= max_ops:
           log.append(('end', c, 'quit', ()))
           return
         ops += 1
+        if cnaps and cnaps[c] != 'late' and ops <= cnaps[c]:
+          nap()
         m = mode
         was_exhausted = q.exhausted
         if mode == 'mixed':
           m = rnd.choice(['get', 'batch_nb:2', 'batch_b:2', 'batch0'])
+        if retry:
+          log.append(('op', c, m))
+          try:
+            vals = dequeue(m)
+          except TimeoutError as e:
+            # A timeout is a retriable condition as long as the queue has not failed
+            # (bounded: a consumer that keeps timing out gives up with the error).
+            if q.exception is not None or retries >= retry:
+              raise
+            retries += 1
+            log.append(('retry', c, m, 'TimeoutError', str(e)[:60]))
+            continue
+          if not vals and was_exhausted:
+            log.append(('end', c, 'exc', 'EmptyBatchAfterExhausted', m))
+            return
+          for v in vals:
+            log.append(('recv', c, v[0], v[1]))
+          check_invariants(f'c{c}')
+          continue
         if m == 'get':
           vals = [q.get()]
         elif m == 'nowait':
@@ -341,3 +425,168 @@ def analyse(case, sched, log):
       elif ended[0][0] == 'prod_raise':
         out.append(('producer_raised_on_stop', ended[0][1:]))
   return out
+
+
+# -- timing scenarios: sleeping threads, timeouts that fire mid-stream -------------
+
+TIMING_SCENARIOS = ('slow_consumer', 'late_consumer', 'slow_producer')
+MECH_PUT_TIMEOUT_DROP = 'ignore-error-queue-drops-element-on-put-timeout'
+MECH_GET_BATCH_TIMEOUT_DROP = 'get-batch-timeout-drops-dequeued-elements'
+
+
+def timing_variants(cfg, rng):
+  """Timing variants of one configuration (see C04.gen_config).
+
+  slow_consumer / late_consumer: bounded queue with a timeout; the consumers sleep
+  before their first operations (or only turn up once the producers have returned), so
+  a put() on the full buffer may time out; with and without ignore_error.
+  slow_producer: queue with a timeout; the sources sleep before some elements, so a
+  blocked dequeue may time out; the consumers retry after a TimeoutError.
+  In all of them every thread goes on until the stream ends or an error is reported.
+  """
+  out = []
+  P, C = cfg['P'], cfg['C']
+  base = dict(cfg, timeout=3.0, fault=None, stop=None, trace_queue=True, retry=40)
+  # -- starved put -------------------------------------------------------------------
+  cap = cfg['cap'] or rng.choice([1, 2])
+  flavour = cfg['flavour'] if cfg['cap'] else rng.choice(['default', 'queue', 'asyncio'])
+  lens = list(cfg['lens'])
+  one = rng.randrange(P)
+  lens[one] = max(lens[one], cap + rng.randint(1, 3))   # at least one put must block
+  bounded = dict(base, cap=cap, flavour=flavour, lens=lens)
+  naps = [rng.randint(1, 3) for _ in range(C)]
+  ignore = rng.random() < 0.75
+  out.append(dict(bounded, scn='slow_consumer', cnaps=naps, ignore_error=ignore))
+  out.append(dict(bounded, scn='slow_consumer', cnaps=naps, ignore_error=not ignore))
+  out.append(dict(bounded, scn='late_consumer', cnaps=['late'] * C, ignore_error=True))
+  # -- starved get -------------------------------------------------------------------
+  lens = [max(l, rng.choice([1, 2, 3])) for l in cfg['lens']]
+  pnaps = [sorted(rng.sample(range(n + 1), rng.randint(0, min(2, n + 1)))) for n in lens]
+  if not any(pnaps):
+    p = rng.randrange(P)
+    pnaps[p] = [rng.randint(0, lens[p])]
+  slow = dict(base, scn='slow_producer', lens=lens, pnaps=pnaps)
+  out.append(slow)
+  modes = list(cfg['modes'])
+  modes[rng.randrange(len(modes))] = f'batch_b:{rng.choice([2, 3, 4])}'
+  out.append(dict(slow, modes=modes))
+  return out
+
+
+def _next_event_of_consumer(log, start, c):
+  for e in log[start:]:
+    if e[0] in ('op', 'retry', 'end') and e[1] == c:
+      return e
+  return None
+
+
+def analyse_timing(case, sched, log, info):
+  """Oracle of the timing scenarios. Returns list of (kind, detail).
+
+  No produced element may vanish silently: each one is received by a consumer, is still
+  in the buffer, or somebody was told (a producer raised, the queue recorded an
+  exception, a consumer ended with an exception).  TimeoutErrors that a consumer
+  retried are not such a report: the queue was neither failed nor stopped.
+  """
+  P, C, lens = case['P'], case['C'], case['lens']
+  if sched.status == 'deadlock':
+    return [('deadlock', sched.witness)]
+  if sched.status != 'ok':
+    return []
+  out = []
+  produced = [(e[1], e[2]) for e in log if e[0] == 'produce']
+  recv = [(e[1], e[2], e[3]) for e in log if e[0] == 'recv']
+  ids = [(p, i) for (_, p, i) in recv]
+  if len(set(ids)) != len(ids):
+    out.append(('duplicate', sorted({x for x in ids if ids.count(x) > 1})[:5]))
+  if not set(ids) <= set(produced):
+    out.append(('phantom', sorted(set(ids) - set(produced))[:5]))
+  last = {}
+  for (c, p, i) in recv:
+    if last.get((c, p), -1) >= i:
+      out.append(('order', {'consumer': c, 'producer': p, 'prev': last[(c, p)], 'got': i}))
+      break
+    last[(c, p)] = i
+  for e in log:
+    if e[0] == 'invariant':
+      out.append(('invariant', e[1:]))
+  errs = sched.thread_errors()
+  if errs:
+    out.append(('thread_error', {k: repr(v) for k, v in errs.items()}))
+  ends = {e[1]: e for e in log if e[0] == 'end'}
+  for c in range(C):
+    if c not in ends:
+      out.append(('consumer_no_end', c))
+  prod_end = {e[1]: e for e in log if e[0] in ('prod_return', 'prod_raise')}
+  for p in range(P):
+    if p not in prod_end:
+      out.append(('producer_no_return', p))
+  q = info['queue']
+  residual = []
+  raw = q._queue  # pylint: disable=protected-access
+  while True:
+    try:
+      residual.append(tuple(raw.get_nowait()))
+    except (_queue.Empty, asyncio.QueueEmpty):
+      break
+  info['residual'] = residual
+  reports = ([f'P{e[1]} raised {e[2]}' for e in prod_end.values() if e[0] == 'prod_raise']
+             + [f'C{e[1]} ended with {e[3]}' for e in ends.values() if e[2] == 'exc']
+             + ([f'queue.exception={type(q.exception).__name__}'] if q.exception is not None
+                else []))
+  info['reports'] = reports
+  lost = sorted(set(produced) - set(ids) - set(residual))
+  if not reports:
+    for c, e in sorted(ends.items()):
+      if e[2] == 'stop' and sorted(map(str, e[3])) != sorted(f'r{p}' for p in range(P)):
+        out.append(('returned_values', {'consumer': c, 'got': list(e[3])}))
+    if lost:
+      why = {}
+      for v in lost:
+        enq = any(e[0] == 'enq' and tuple(e[2]) == v for e in log)
+        put_to = any(e[0] == 'put_timeout' and tuple(e[2]) == v for e in log)
+        deq = [(n, e) for n, e in enumerate(log) if e[0] == 'deq' and tuple(e[2]) == v]
+        if not enq and put_to:
+          why[v] = 'put_timeout_swallowed'
+        elif deq and deq[0][1][1].startswith('C'):
+          c = int(deq[0][1][1][1:])
+          nxt = _next_event_of_consumer(log, deq[0][0], c)
+          if nxt is not None and nxt[0] == 'retry' and nxt[2].startswith('batch'):
+            why[v] = f'dequeued_by_get_batch_that_timed_out:{nxt[2]}'
+          else:
+            why[v] = f'dequeued_by_C{c}_not_delivered'
+        else:
+          why[v] = 'enqueued_never_dequeued' if enq else 'never_enqueued'
+      out.append(('silent_loss', {
+          'lost': [list(v) for v in lost[:6]], 'why': {f'{v[0]},{v[1]}': w for v, w in why.items()},
+          'consumer_ends': [list(e[1:3]) for e in ends.values()],
+          'producer_ends': [list(e[:2]) for e in prod_end.values()],
+          'queue_exception': None, 'residual_in_buffer': len(residual)}))
+  return out
+
+
+def deadlock_sites(kind, detail):
+  """'[C:get,P:put]' for a deadlock witness (who is stuck in which queue method)."""
+  if kind != 'deadlock' or not isinstance(detail, dict):
+    return ''
+  sites = set()
+  for name, v in detail.items():
+    st = [s for s in (v.get('stack') or []) if s.startswith('iter_utils.py')]
+    fn = st[-1].split(':')[-1] if st else '?'
+    sites.add(f'{name[0]}:{fn}')
+  return '[' + ','.join(sorted(sites)) + ']'
+
+
+def classify_timing(case, kind, detail):
+  """Stable key of a root cause, by scenario and recorded evidence (None = no special key)."""
+  if kind != 'silent_loss' or not isinstance(detail, dict):
+    return None
+  whys = set(detail.get('why', {}).values())
+  scn = case.get('scn')
+  if (scn in ('slow_consumer', 'late_consumer') and case.get('ignore_error')
+      and whys == {'put_timeout_swallowed'}):
+    return MECH_PUT_TIMEOUT_DROP
+  if (scn == 'slow_producer' and case.get('retry') and whys
+      and all(w.startswith('dequeued_by_get_batch_that_timed_out:batch_b') for w in whys)):
+    return MECH_GET_BATCH_TIMEOUT_DROP
+  return None
